@@ -717,7 +717,8 @@ Proof.
     + apply has_at_clip; [exact H6|]. fold body. lia.
     + fold body. rewrite len_clip by lia. reflexivity.
     + rewrite len_clip by lia. lia.
-  - (* variant: read the signature, validate the content at the cursor's absolute offset, decode it in a sub-context *)
+  - (* variant: read the signature, enter, validate the content at the cursor's absolute offset, decode it in a sub-context
+       that carries the raised depth, leave *)
     destruct e as [?|?|?|? ?|x]; try discriminate Hm. cbn [ety_matches] in Hm. apply andb_prop in Hm. destruct Hm as [Het Hmy].
     apply ty_eqb_eq in Het. subst vt. cbn [erase] in Hwt. pose proof (wt_variant_inv _ _ _ Hwt) as Hwy.
     rewrite unmarshal_t_S_var.
@@ -738,11 +739,12 @@ Proof.
     rewrite (u_enter_ok (mkc buf (pos + p) nf ud)) by (cbn [udepth]; lia). cbn [bind ubuf uoff unfds udepth].
     rewrite (validate_complete_gen be y (erase x) (ud + 1) (pos + p) buf 66%nat Hwy
                (encodable_mono be y _ (d + 1) (ud + 1) ltac:(lia) Hey) H3 (fuel_ok_66 _)). cbn [bind]. fold ey.
-    rewrite (u_sub_ok (len ey) (mkc buf (pos + p) nf ud)) by (cbn [ubuf uoff]; lia).
+    rewrite (u_sub_ok (len ey) (mkc buf (pos + p) nf (ud + 1))) by (cbn [ubuf uoff]; lia).
     unfold set_off; cbn [bind ubuf uoff unfds udepth fst snd].
     rewrite ty_eqb_refl.
-    rewrite (IH x (firstnN (pos + p + len ey) buf) (pos + p) nf ud (d + 1) vf Hwy Hmy Hey ltac:(lia) Hfd).
-    + cbn [bind fst snd]. fold ey. do 3 f_equal. rewrite !len_app, len_sig_bytes, len_zeros. subst pos. lia.
+    rewrite (IH x (firstnN (pos + p + len ey) buf) (pos + p) nf (ud + 1) (d + 1) vf Hwy Hmy Hey ltac:(lia) Hfd).
+    + cbn [bind fst snd]. unfold u_leave; cbn [ubuf uoff unfds udepth]. fold ey.
+      replace (ud + 1 - 1) with ud by lia. do 3 f_equal. rewrite !len_app, len_sig_bytes, len_zeros. subst pos. lia.
     + apply has_at_clip; [exact H3|]. fold ey. lia.
     + exact (fuel_ok_variant _ _ Hf Hd).
 Qed.
